@@ -111,7 +111,9 @@ def _convert_internal_expression_to_pddl(
             expression, symbols_map, decimal_digits, should_remove_trailing_zeros
         )
 
-    if isinstance(expression, Pow) and expression.exp == -1:
+    if isinstance(expression, Pow) and expression.exp.is_Integer:
+        # powers are not part of PDDL so they are converted to repeated multiplications (and to a division
+        # when the exponent is negative).
         pddl_expression = _convert_internal_expression_to_pddl(
             expression.base,
             SYMPY_OP_TO_PDDL_OP[expression.base.func],
@@ -119,10 +121,15 @@ def _convert_internal_expression_to_pddl(
             decimal_digits,
             should_remove_trailing_zeros,
         )
-        return f"(/ 1 {pddl_expression})"
+        compiled_expression = pddl_expression
+        for _ in range(abs(int(expression.exp)) - 1):
+            compiled_expression = f"(* {compiled_expression} {pddl_expression})"
 
-    if isinstance(expression, Pow) and expression.exp > 1:
-        return _recursive_pow_expression_to_pddl(expression, symbols_map)
+        return (
+            compiled_expression
+            if expression.exp > 0
+            else f"(/ 1 {compiled_expression})"
+        )
 
     # the expression is a binary expression with multiple arguments
     components = []
